@@ -54,6 +54,11 @@ CLAIMED.update({
             "Seeded search; the decisive dimension is program shape, the simulator contributes spawned-task placement, the uuid seam and replay.", SCOPE_NOTE),
 })
 
+CLAIMED.update({
+    "C11": ("exploration", "5 (C11)", "deterministic simulation: generator specs consumed in the same scope / another scope / outside any scope / another task, fully, with early break (aclose or dropped reference with explicit gc event) or never started; generator-side and consumer-side shadow environments; rule ids in the violation signature",
+            "Seeded search over generator specs, consumption placements and finalisation instants. 22 open known findings (one root cause: the stream body runs in the consumer's context) are listed by rule and consumption mode; any other rule/mode is reported as a violation.", SCOPE_NOTE),
+})
+
 NOT_YET = {
 }
 
